@@ -278,39 +278,88 @@ def run(rep: Report, repo: Repo, tier: str) -> None:
     rep.floor("C16-R6", 7, "settings construction facts")
 
     # ---- R5 relative_to_config
-    rep.rule("C16-R5", "relative_to_config selects Filename(in_source_dir=True), otherwise Filename(cwd=os.getcwd()); main reads the "
-                       "flag before validation and passes it to config_template")
+    rule_output_dir_resolution(rep, repo, "C16-R5")
+
+
+def _calltime_cwd(e: ast.expr, fn: ast.FunctionDef) -> Tuple[bool, str]:
+    """Is `e` os.getcwd() evaluated when the function runs?"""
+    if isinstance(e, ast.Call) and call_name(e) in ("os.getcwd", "os.path.abspath") and (call_name(e) == "os.getcwd" or
+                                                                                       (e.args and norm(e.args[0]) in ("'.'", "os.curdir"))):
+        return True, ""
+    if isinstance(e, ast.Name):
+        from ..model import param_defaults
+        if e.id in param_defaults(fn):
+            return False, (f"`{e.id}` is a parameter whose default `{norm(param_defaults(fn)[e.id])}` is evaluated once, when the module "
+                           f"is imported, not when the run starts")
+        defs = [n.value for n in walk_no_nested(fn) if isinstance(n, ast.Assign) and any(norm(t) == e.id for t in n.targets)]
+        if len(defs) == 1:
+            return _calltime_cwd(defs[0], fn)
+        for m_st in ast.walk(ast.Module(body=[], type_ignores=[])):
+            pass
+        return False, f"`{e.id}` is not the working directory at call time"
+    return False, f"`{norm(e)[:40]}` is not os.getcwd()"
+
+
+def rule_output_dir_resolution(rep: Report, repo: Repo, rule: str) -> None:
+    rep.rule(rule, "relative_to_config selects Filename(in_source_dir=True), otherwise Filename(cwd=<os.getcwd() at call time>); main "
+                   "reads the flag before validation and passes it to config_template")
+    main = repo.func(MOD, "main")
+    where = f"{MOD}:main"
+    tdict, tfn = template_dict(repo)
+    titems = {sec: dict_items(v) if isinstance(v, ast.Dict) else None for sec, v in dict_items(tdict).items()}
     out_t = titems.get("output") or {}
     v = out_t.get("directory")
     ok5 = False
+    why = "the output directory template is not an Optional(Filename(...)) that switches on the relative_to_config flag"
     desc = norm(v) if v is not None else "missing"
     if isinstance(v, ast.Call) and call_name(v).split(".")[-1] == "Optional" and v.args and isinstance(v.args[0], ast.IfExp):
         ife = v.args[0]
         flag = tfn.args.args[0].arg if tfn.args.args else None
         test = norm(ife.test)
-        a, b = norm(ife.body), norm(ife.orelse)
-        cwd_f = "Filename(cwd=os.getcwd())"
-        src_f = "Filename(in_source_dir=True)"
-        if test == f"not {flag}":
-            ok5 = cwd_f in a and src_f in b
-        elif test == flag:
-            ok5 = src_f in a and cwd_f in b
-    rep.check(ok5, "C16-R5", "cminx.config:config_template", desc[:110],
-              "the output directory is not resolved against the cwd / the config file's directory as relative_to_config selects",
-              witness="-s dir/conf.yaml with output.directory: out and relative_to_config: true")
+        pos, neg = (ife.orelse, ife.body) if test == f"not {flag}" else ((ife.body, ife.orelse) if test == flag else (None, None))
+        if pos is not None:
+            def kw(call, name):
+                return next((k.value for k in call.keywords if k.arg == name), None) if isinstance(call, ast.Call) else None
+            src_ok = isinstance(pos, ast.Call) and call_name(pos).endswith("Filename") and \
+                isinstance(kw(pos, "in_source_dir"), ast.Constant) and kw(pos, "in_source_dir").value is True and kw(pos, "cwd") is None
+            cwd_e = kw(neg, "cwd")
+            cwd_ok, cwd_why = (False, "no cwd= argument") if cwd_e is None else _calltime_cwd(cwd_e, tfn)
+            neg_ok = isinstance(neg, ast.Call) and call_name(neg).endswith("Filename") and cwd_ok and kw(neg, "in_source_dir") is None
+            ok5 = src_ok and neg_ok
+            if not src_ok:
+                why = "with relative_to_config the directory is not resolved against the configuration file's directory"
+            elif not neg_ok:
+                why = f"without relative_to_config the directory is not resolved against the current working directory: {cwd_why}"
+    elif isinstance(v, ast.Call) and call_name(v).split(".")[-1] == "Optional" and v.args and isinstance(v.args[0], ast.Call):
+        inner = v.args[0]
+        kws = {k.arg: norm(k.value) for k in inner.keywords}
+        if "cwd" in kws and "in_source_dir" in kws:
+            why = ("Filename(cwd=..., in_source_dir=flag): in confuse an explicit cwd wins over in_source_dir, so relative_to_config "
+                   "is silently ignored")
+    rep.check(ok5, rule, "cminx.config:config_template", desc[:110],
+              "a relative output directory is not resolved as the settings prescribe: " + why,
+              witness="relative -o after a chdir / -s dir/conf.yaml with output.directory: out and relative_to_config: true")
+    cfg_var = None
+    for st in main.body:
+        if isinstance(st, ast.Assign) and isinstance(st.value, ast.Call) and call_name(st.value).split(".")[-1] == "Configuration":
+            cfg_var = norm(st.targets[0])
     flag_var = None
     for i, st in enumerate(main.body):
-        if isinstance(st, ast.If) and "relative_to_config" in norm(st.test) and cfg_var in norm(st.test) and ".get()" in norm(st.test):
+        if isinstance(st, ast.If) and "relative_to_config" in norm(st.test) and cfg_var and cfg_var in norm(st.test) and ".get()" in norm(st.test):
             for s2 in st.body:
                 if isinstance(s2, ast.Assign) and isinstance(s2.value, ast.Constant) and s2.value.value is True:
                     flag_var = norm(s2.targets[0])
         if isinstance(st, ast.Assign) and "['relative_to_config']" in norm(st.value) and ".get(" in norm(st.value):
             flag_var = norm(st.targets[0])
     passed = False
-    if dict_var:
-        gcall = names[dict_var][1]
-        if gcall.args and isinstance(gcall.args[0], ast.Call) and gcall.args[0].args:
-            passed = norm(gcall.args[0].args[0]) == flag_var
-    rep.check(flag_var is not None and passed, "C16-R5", where, f"config_template({flag_var})",
-              "main does not pass the relative_to_config flag to the template: the option has no effect")
-    rep.floor("C16-R5", 2, "relative_to_config facts")
+    for st in main.body:
+        if isinstance(st, ast.Assign) and isinstance(st.value, ast.Call) and isinstance(st.value.func, ast.Attribute) \
+                and st.value.func.attr == "get" and norm(st.value.func.value) == cfg_var and st.value.args \
+                and isinstance(st.value.args[0], ast.Call) and st.value.args[0].args:
+            passed = norm(st.value.args[0].args[0]) == flag_var
+            extra = [k.arg for k in st.value.args[0].keywords] + [norm(a) for a in st.value.args[0].args[1:]]
+            if extra:
+                passed = False
+    rep.check(flag_var is not None and passed, rule, where, f"config_template({flag_var})",
+              "main does not pass exactly the relative_to_config flag to the template: the option has no effect")
+    rep.floor(rule, 2, "relative_to_config facts")
